@@ -96,9 +96,28 @@ func c09Grid(w *W) {
 		if !ok {
 			continue
 		}
-		if (kc.family == "pair1" || kc.family == "star") && k-1 == 255 && ttl >= 254 {
-			// a one-byte count of 255 cannot be incremented: with a TTL that
-			// would admit it, this single cell is not asserted
+		if (kc.family == "pair1" || kc.family == "star") && k-1 == 255 && ttl == 255 {
+			// a one-byte count of 255 cannot be incremented: with the one TTL
+			// that would admit it, delivery is not asserted either way. What
+			// is asserted: the count never goes down. A raw socket shows the
+			// header it would forward; it must not have wrapped to a small
+			// count (a forwarding loop would never die out).
+			if isRaw(kc.kind) {
+				p.Inject(append(append([]byte(nil), hdr...), "probe-hop255"...))
+				w.Settle()
+				c := w.Do("RecvMsg", func() (interface{}, error) { return s.RecvMsg() })
+				c.Wait(5 * time.Millisecond)
+				w.Settle()
+				if c.Returned() && c.Err == nil {
+					m := c.Val.(*mangos.Message)
+					if len(m.Header) >= 4 && m.Header[3] < 255 {
+						w.Failf("C09/hop-count-wrapped:"+kc.kind, "%s with TTL 255 received a message whose hop byte was 255 and hands it on with header % x: the count wrapped around, a forwarding loop would never end", kc.kind, m.Header)
+						return
+					}
+					m.Free()
+				}
+				w.Probe("hop-byte-255-at-ttl-255")
+			}
 			continue
 		}
 		if k-1 == 255 {
